@@ -99,7 +99,17 @@ fn check_memory(cells: u32, headers: &[u8], pad: u64, big_column: bool, seed: u6
         .collect() };
     let hs = mk_headers();
     let total: u64 = cells as u64 + headers.iter().map(|x| *x as u64).sum::<u64>();
-    let column = if big_column { total + (pad % (1u64 << 40)) } else { total + (pad % 50) };
+    // column sizes up to ~2^100 (callers only require < 2^128)
+    let column: u128 = if big_column {
+        match pad % 3 {
+            0 => total as u128 + (pad % (1u64 << 40)) as u128,
+            1 => total as u128 + ((pad as u128) << 36) + 1,
+            _ => (1u128 << 64) + total as u128 + (pad % 1000) as u128,
+        }
+    } else {
+        total as u128 + (pad % 50) as u128
+    };
+    let total = total as u128;
     let padc = (Felt::from(1 + (pad % 7)), prf_felt(seed ^ 0x44, 0));
     let pi = mk_public_input(&page, mk_headers(), padc);
     // naive: z^size / ( prod(z - (a + alpha v)) * prod(header.prod) * (z - (pa + alpha pv))^(size - total) )
@@ -110,8 +120,8 @@ fn check_memory(cells: u32, headers: &[u8], pad: u64, big_column: bool, seed: u6
     for h in &hs {
         den *= h.prod;
     }
-    den *= pow_u128(z - (padc.0 + alpha * padc.1), (column - total) as u128);
-    let expect = pow_u128(z, column as u128) * inv(den);
+    den *= pow_u128(z - (padc.0 + alpha * padc.1), column - total);
+    let expect = pow_u128(z, column) * inv(den);
     let class = format!(
         "memory/{}{}{}",
         if column > total { "padded" } else { "exact" },
